@@ -32,7 +32,7 @@ HELPERS = {
             (AM + 'tempering', ['chain_swap_acceptance', 'chain_swap_step']),
             (AM + 'prior', ['log_genotype_null_prior', 'log_dirichlet_multinomial_pmf', 'log_genotype_prior']),
             (AM + 'likelihood', ['log_likelihood', 'log_likelihood_structural_change']),
-            (AM + 'mcmc', ['_denovo_assembler'])],
+            (AM + 'mcmc', ['_denovo_assembler', 'DenovoMCMC.fit'])],
     'C02': [(J, LOGSPACE),
             (CM + 'mcmc', ['mh_options', 'gibbs_options', 'compound_step', 'mcmc_sampler']),
             (CM + 'prior', ['calculate_alphas', 'log_genotype_allele_prior', 'log_genotype_prior']),
@@ -140,7 +140,7 @@ HELPERS = {
             (CM + 'utils', ['count_allele'])],
     'C19': [('mchap.application.find_snvs', ['_ord_to_index', 'bases_to_indices', '_count_alleles', 'bam_samples', 'bam_region_depths',
                                              '_order_by', '_vcf_sort_alleles', '_order_as_vcf_alleles', 'format_allele_counts',
-                                             'format_samples_columns', 'write_vcf_block'])],
+                                             'format_samples_columns', 'write_vcf_block', 'format_floats', 'write_vcf_header', 'main'])],
     'C20': [('mchap.application.atomize', ['get_haplotype_snvs', 'format_snv_alleles', 'get_haplotype_snv_indices', 'get_sample_snv_ACP',
                                            'format_allele_floats', 'get_sample_snv_GT', 'get_sample_snv_PQ', 'get_sample_snv_depth',
                                            'format_vcf_snv_block', 'atomize_vcf'])],
